@@ -136,16 +136,22 @@ CHECKS = {
             "operation of seeded histories, observed results vs a fresh interpreter, 8 threads vs sequential. Thread "
             "scheduling inside one parse() call is outside the model.", "4.C15",
             "world model theorem + shared-state monitor + history/thread differential"),
-    "C17": ("proof", "JSON: Theorem C17_json_complete (JsonComplete.v, no axioms) about the grammar REGENERATED from "
-            "examples/json/json.pest on every run: every RFC 8259 text whose top level is an array or object - any nesting, "
-            "every number form, every escape, insignificant whitespace wherever RFC 8259 allows it - is accepted by the "
-            "reference semantics, consuming the whole input, with a tree that mirrors the document (same nesting and member "
-            "order, number and string tokens exactly the source slices, EOI last). Also: both JSON grammars reference only "
-            "defined rules, terminate on every input (wf_auto), trees well-formed. PARTIAL: rejection of proper prefixes is "
-            "differential only; tests/grammars/json.pest has no completeness theorem; the calculators' text-to-pairs step is "
-            "differential (their Pratt table gives canonical unique trees: instance of C18). End-to-end on every run: "
-            "generated RFC 8259 documents and proper prefixes in four modes vs json.loads; three calculators vs an "
-            "evaluator written from the documented table.", "4.C17",
+    "C17": ("proof", "JSON, about the grammars REGENERATED from examples/json/json.pest and tests/grammars/json.pest on every run "
+            "(JsonComplete.v, JsonTestComplete.v, JsonPrefix.v; no axioms): C17_json_complete / C17_json_test_complete - every "
+            "RFC 8259 text (top level array or object for the first grammar, any value for the second), any nesting, every "
+            "number form, every escape, insignificant whitespace wherever RFC 8259 allows it, is accepted by the reference "
+            "semantics, consuming the whole input, with a tree that mirrors the document (same nesting and member order, number "
+            "and string tokens exactly the source slices, EOI last); C17_json_prefix_rejected - a document written without "
+            "trailing whitespace is not accepted when cut short anywhere (soundness of the grammar for a bracket/string "
+            "discipline). Also: both grammars reference only defined rules, terminate on every input, trees well-formed. "
+            "Calculator (CalcComplete.v): the grammar regenerated from examples/calculator/calculator.pest turns every well-formed "
+            "expression text, with whitespace anywhere between tokens, into exactly its token stream (nested expr pairs for "
+            "groups), and the Pratt parser consumes that whole stream and builds the canonical tree for any operator table "
+            "(C17_calc_end_to_end); the calculator's own table is an instance (C18). PARTIAL: the evaluation functions of the "
+            "three calculators and the grammar-encoded-precedence grammar are differential only; prefix rejection is proved "
+            "for examples/json/json.pest only. End-to-end on every run: generated RFC 8259 "
+            "documents and proper prefixes in four modes vs json.loads; three calculators vs an evaluator written from the "
+            "documented table.", "4.C17",
             "instance theorems + differential against json.loads and an independent evaluator"),
     "C18": ("proof", "Theorems (PrattProof.v): the tree built is canonical for the declared table, its yield is the "
             "consumed stream, every canonical tree is rebuilt from its yield (exactness), canonical trees are unique, "
